@@ -11,8 +11,6 @@ import (
 	"fqverif/fw"
 )
 
-func c06Table(r *fw.Run, p *fw.Program, reach map[*ssa.Function]bool) {}
-func c06OutType(r *fw.Run, p *fw.Program)                              {}
 
 // symExceptions: calls of panicking scalar Sym accessors that are not dominated by a Sym != nil
 // test. key = enclosing function | accessor | ordinal. Confirmed by reading.
